@@ -215,7 +215,16 @@ pub fn run_case(ctx: &mut Ctx, rng: &mut Rng, c: &Case, label: &str) {
     // followed (300, 305, 399; redirects are followed by default in these requests)
     let status_line = *rng.pick(&["HTTP/1.1 200 OK", "HTTP/1.1 200 OK", "HTTP/1.1 200 OK", "HTTP/1.1 201 Created", "HTTP/1.1 206 Partial Content", "HTTP/1.1 404 Not Found", "HTTP/1.1 500 Oops", "HTTP/1.1 300 Multiple Choices", "HTTP/1.1 305 Use Proxy", "HTTP/1.1 399 Unassigned"]);
     ctx.set_add("status_lines", status_line.to_owned());
-    let mut b = build_response(status_line, &c.headers, if c.framing == Framing::Length { Framing::Close } else { c.framing }, &stream, &sizes, &[Default::default()], b"");
+    // the media type of the response is irrelevant to the coding (also application/gzip & co)
+    let mut headers_ct = c.headers.clone();
+    match rng.below(6) {
+        0 => headers_ct.push(("Content-Type".into(), b"application/gzip".to_vec())),
+        1 => headers_ct.push(("Content-Type".into(), b"application/x-gzip; charset=binary".to_vec())),
+        2 => headers_ct.push(("content-type".into(), b"Application/X-Gunzip".to_vec())),
+        3 => headers_ct.push(("Content-Type".into(), b"text/plain".to_vec())),
+        _ => {}
+    }
+    let mut b = build_response(status_line, &headers_ct, if c.framing == Framing::Length { Framing::Close } else { c.framing }, &stream, &sizes, &[Default::default()], b"");
     if c.framing == Framing::Length {
         // insert the Content-Length by hand (it may deliberately exceed what is served)
         let mut head = b.wire[..b.head_len - 2].to_vec();
@@ -240,6 +249,13 @@ pub fn run_case(ctx: &mut Ctx, rng: &mut Rng, c: &Case, label: &str) {
         1 if b.wire.len() <= 3000 => respgen::Segmentation::Bytewise.apply(&b.wire),
         _ => respgen::random_segmentation(rng, b.wire.len(), &[b.head_len]).apply(&b.wire),
     };
+    // a third of the intact length-/chunk-framed cases: the server keeps the connection open after
+    // the frame (a read past the frame would block; the scripted transport reports it as WouldBlock)
+    let mut steps = steps;
+    if c.truncate_to.is_none() && c.flip.is_none() && c.framing != Framing::Close && rng.chance(1, 3) {
+        steps.push(Step::Pause);
+        ctx.count("intact_streams_on_a_connection_kept_open", 1);
+    }
     let _world = World::single(steps);
     let expect = match (c.truncate_to, c.flip) {
         (None, None) => Expect::Intact,
